@@ -272,8 +272,11 @@ Definition write (w : world) (payload : str) : world :=
   let r := {| rbytes := payload ++ [10%N]; rid := length (hist w); rday := day_of (now w) |} in
   append (check_size (check_daily (init w) (rday r)) (Z.of_nat (length payload) + s_newline sh)) r.
 
+(* the QtMsgType of a message (qtlogger: LogMessage::type()).  The sink's decisions do not look at it:
+   [step] discards it, and [retype] / Properties_C07.C07_message_type_irrelevant say so explicitly *)
+Inductive mtype := TDebug | TWarning | TCritical | TFatal | TInfo.
 Inductive op :=
-| Write (payload : str)          (* one message at the current wall clock *)
+| Write (ty : mtype) (payload : str)   (* one message of type [ty] at the current wall clock *)
 | Advance (dt : Z)               (* the wall clock moves forward (never backwards) *)
 | Restart                        (* the sink object is destroyed and a new one created on the same path *)
 | PutForeign (name : str) (bytes : str).   (* somebody else creates / overwrites a file in the directory *)
@@ -297,7 +300,7 @@ Definition put_foreign (w : world) (name bytes : str) : world :=
 
 Definition step (w : world) (o : op) : world :=
   match o with
-  | Write p => write w p
+  | Write _ p => write w p          (* rotateIfNeeded() and FileSink::send() never look at the type *)
   | Advance dt => {| gone := gone w; rot := rot w; act := act w; act_mt := act_mt w;
                      now := clamp (now w + Z.max 0 dt);
                      inited := inited w; cur := cur w; hist := hist w; foreign := foreign w |}
@@ -305,6 +308,10 @@ Definition step (w : world) (o : op) : world :=
                   inited := false; cur := cur w; hist := hist w; foreign := foreign w |}
   | PutForeign n b => put_foreign w n b
   end.
+
+(* the same history with other message types *)
+Definition retype (f : mtype -> mtype) (o : op) : op :=
+  match o with Write ty p => Write (f ty) p | _ => o end.
 
 (* the directory right after the first sink object was constructed at time t0: an empty active file *)
 Definition w0 (t0 : time) : world :=
